@@ -668,8 +668,7 @@ class Interp:
                 cands.append((x, y, ya))
         if not cands or any(isinstance(n_, ast.Continue) for b_ in s.body for n_ in ast.walk(b_)):
             return {}
-        marks = (len(self.calls), len(self.assign_log), len(self.store_log), len(self.none_arith), len(self.bad_attrs), len(self.falsy_arith),
-                 len(self.nested_raises), len(self.fit_log), len(self._stack[-1][1]) if self._stack else 0)
+        marks = self._log_marks()
         dry = State(fork_env(st.env), st.facts.copy(), list(st.conds))
         dry.loop_exits = []
         self._refine(s.test, dry, fi, depth, True)
@@ -680,10 +679,7 @@ class Interp:
             dry.live = False
         finally:
             self._loop_stack_pop()
-            del self.calls[marks[0]:], self.assign_log[marks[1]:], self.store_log[marks[2]:], self.none_arith[marks[3]:]
-            del self.bad_attrs[marks[4]:], self.falsy_arith[marks[5]:], self.nested_raises[marks[6]:], self.fit_log[marks[7]:]
-            if self._stack:
-                del self._stack[-1][1][marks[8]:]
+            self._log_rewind(marks)
         out = {}
         if not dry.live:
             return out
@@ -786,17 +782,55 @@ class Interp:
             return v, Form.sym(a[1][:-5])
         return None
 
+    def _log_marks(self):
+        return (len(self.calls), len(self.assign_log), len(self.store_log), len(self.none_arith), len(self.bad_attrs), len(self.falsy_arith),
+                len(self.nested_raises), len(self.fit_log), len(self._stack[-1][1]) if self._stack else 0)
+
+    def _log_rewind(self, marks):
+        del self.calls[marks[0]:], self.assign_log[marks[1]:], self.store_log[marks[2]:], self.none_arith[marks[3]:]
+        del self.bad_attrs[marks[4]:], self.falsy_arith[marks[5]:], self.nested_raises[marks[6]:], self.fit_log[marks[7]:]
+        if self._stack:
+            del self._stack[-1][1][marks[8]:]
+
+    def _unroll_for(self, s, it, st, fi, depth):
+        """a loop over a literal table executed row by row (with `break` and `else`), on a copy of the state; None when some
+        iteration leaves it undecided whether the loop was left (the caller then abstracts the loop)"""
+        marks = self._log_marks()
+        cur = State(fork_env(st.env), st.facts.copy(), list(st.conds))
+        broke = None
+        for item in it.items:
+            if not cur.live:
+                break
+            self.assign(s.target, item, cur, fi, depth, s)
+            self._loop_stack_push(cur)
+            self.exec_block(s.body, cur, fi, depth)
+            exits = self._loop_stack_pop()
+            if exits:
+                if cur.live:
+                    self._log_rewind(marks)
+                    return None
+                tmp = State(cur.env, cur.facts, cur.conds)
+                exits_live = [e_ for e_ in exits]
+                for e_ in exits_live:
+                    e_.live = True
+                self._merge(tmp, exits_live, s)
+                tmp.live = True
+                broke = tmp
+                break
+        if broke is not None:
+            return broke
+        if cur.live:
+            self.exec_block(s.orelse, cur, fi, depth)
+        return cur
+
     def s_For(self, s, st, fi, depth):
         it = self.eval(s.iter, st, fi, depth)
-        if self.unroll_literal_loops and isinstance(it, TupleV) and len(it.items) <= 32 and not s.orelse \
-                and not any(isinstance(x, (ast.Break, ast.Continue)) for b in s.body for x in ast.walk(b)):
-            # a loop over a literal table is the sequence of its bodies, one per row
-            for item in it.items:
-                if not st.live:
-                    break
-                self.assign(s.target, item, st, fi, depth, s)
-                self.exec_block(s.body, st, fi, depth)
-            return
+        if self.unroll_literal_loops and isinstance(it, TupleV) and len(it.items) <= 32 \
+                and not any(isinstance(x, ast.Continue) for b in s.body for x in ast.walk(b)):
+            res = self._unroll_for(s, it, st, fi, depth)
+            if res is not None:
+                st.env, st.facts, st.conds, st.live = res.env, res.facts, res.conds, res.live
+                return
         names = self._assigned_names(s.body) | self._assigned_names([ast.Assign(targets=[s.target], value=ast.Constant(value=0), lineno=s.lineno)])
         pre = fork_env(st.env)
         self._havoc(names, st, s, "")
@@ -810,6 +844,20 @@ class Interp:
         self.loop_envs[s] = (pre, head_env, body.env if body.live else None, exits)
         st.env = head_env
         self._havoc(names, st, s, "'")
+        if s.orelse:
+            # `else` runs only when the loop was not left by `break`; the break states skip it
+            normal = State(fork_env(st.env), st.facts.copy(), list(st.conds))
+            self.exec_block(s.orelse, normal, fi, depth)
+            branches = [normal]
+            for e_ in exits:
+                e_.live = True
+                for nm in names:
+                    # values at the break are those of some iteration: keep them abstract
+                    if nm in e_.env and nm in st.env:
+                        e_.env[nm] = st.env[nm]
+                branches.append(e_)
+            self._merge(st, branches, s)
+            return
         self.exec_block(s.orelse, st, fi, depth)
 
     def _loop_stack_push(self, body):
@@ -1679,13 +1727,27 @@ class Interp:
             iters.append(it)
             self.assign(g.target, iter_element(it), sub, fi, depth, n)
         # literal iteration: expand when the single iterable is a literal list/tuple
-        if len(n.generators) == 1 and isinstance(iters[0], TupleV) and not n.generators[0].ifs and len(iters[0].items) <= 16:
+        if len(n.generators) == 1 and isinstance(iters[0], TupleV) and len(iters[0].items) <= 32:
             outs = []
+            decided = True
             for item in iters[0].items:
                 s2 = State(dict(st.env), st.facts, st.conds)
                 self.assign(n.generators[0].target, item, s2, fi, depth, n)
-                outs.append([self.eval(e, s2, fi, depth) for e in elt_nodes])
-            return outs, True
+                keep = True
+                for cond in n.generators[0].ifs:
+                    tv = self.truth(cond, s2, fi, depth)
+                    if tv is None:
+                        decided = False
+                        break
+                    if tv is False:
+                        keep = False
+                        break
+                if not decided:
+                    break
+                if keep:
+                    outs.append([self.eval(e, s2, fi, depth) for e in elt_nodes])
+            if decided:
+                return outs, True
         return [[self.eval(e, sub, fi, depth) for e in elt_nodes]], False
 
     def e_ListComp(self, n, st, fi, depth):
@@ -2184,6 +2246,11 @@ class Interp:
             return mk_fn("round", [as_value(a) for a in args])
         if name == "print":
             return NONE
+        if name == "next" and args and isinstance(args[0], TupleV):
+            if args[0].items:
+                return args[0].items[0]
+            if len(args) > 1:
+                return args[1]
         if name == "slice" and 1 <= len(args) <= 3 and not kwargs:
             a = list(args)
             if len(a) == 1:
@@ -2328,7 +2395,7 @@ _ELEMENTWISE = {"sqrt", "abs", "absolute", "exp", "log", "log10", "log2", "cos",
 _BUILTIN_TYPES = {"int", "float", "complex", "str", "bool", "list", "tuple", "dict", "set", "bytes", "object", "type",
                   "Exception", "ValueError", "TypeError"}
 _BUILTINS = {"len", "int", "isinstance", "type", "getattr", "super", "str", "min", "max", "list", "tuple", "zip", "range",
-             "abs", "round", "print", "callable", "float", "sum", "map", "dir", "setattr", "delattr", "hasattr", "id", "slice"}
+             "abs", "round", "print", "callable", "float", "sum", "map", "dir", "setattr", "delattr", "hasattr", "id", "slice", "next"}
 _INLINE_METHODS = {"len", "fs", "sps", "dt", "w", "t", "abs", "power", "type", "copy", "__getitem__", "__call__", "__mul__",
                    "__rmul__", "__add__", "__radd__", "__sub__", "__rsub__", "ones", "zeros", "__len__"}
 
